@@ -337,6 +337,17 @@ theorem step_Cinv (c : Cfg) (s : St) (hg : Ginv c s) (hj : Jinv s) (ho : Oinv c 
   · rename_i hnh
     have hnh : s.halted = false := by simpa using hnh
     split
+    · -- [proxy8] what follows the exhausted task loop: no filter runs, the worker stays or goes on to Oneway / UpFilter
+      obtain ⟨⟨ft, fc, _, fp, _, _, _⟩, hph⟩ := finishStart_form c s hg hnh
+      refine ⟨by rw [ft]; exact hc.head, by rw [ft]; exact hc.chain, by rw [ft]; exact hc.tail,
+        by rw [ft, fc, fp]; exact hc.curp, ?_, by rw [ft]; exact hc.fwd⟩
+      intro hnh' hle
+      rw [ft]
+      rcases hph with h | ⟨_, h⟩ | h
+      · rw [h] at hnh'; cases hnh'
+      · rw [h] at hle ⊢; exact hc.gap hnh hle
+      · omega
+    split
     · -- the loop of `receive` ran out: the task returns
       refine ⟨?_, ?_, ?_, ?_, ?_, ?_⟩
       · rw [ret_trace]; exact hc.head
